@@ -57,7 +57,7 @@ MInv(a) == IF ~MDef(a) \/ a[1] = 0 \/ a[2] = 0 THEN MU
 MDiv(a, b) == MMul(a, MInv(b))
 MPowNat(a, k) == IF ~MDef(a) THEN MU ELSE <<PowMod(a[1], k, P1), PowMod(a[2], k, P2)>>
 MPowInt(a, k) == IF k >= 0 THEN MPowNat(a, k) ELSE MPowNat(MInv(a), -k)
-MFromRat(q) == IF ~RDef(q) THEN MU ELSE MDiv(MInt(q[1]), MInt(q[2]))
+MFromRat(q) == IF ~RDef(q) THEN MU ELSE IF q[2] = 1 THEN MInt(q[1]) ELSE MDiv(MInt(q[1]), MInt(q[2]))
 MI == MPowNat(ZZ, 6)                      \* image of i
 MSqrt2 == MPowNat(GG2, 3)
 MSqrt3 == MPowNat(GG3, 3)
